@@ -31,6 +31,8 @@ fate of the closure.
 
 Round 6: (k) the structural unpackers keep no state on the field object; closures handed to a
 function that keeps them; normaliser kinds from path facts with converting helpers followed.
+Round 7: includes the compiler rule of C09 (i'); exactly-one-of count / until decided by a truth
+table; the raw conditions may be kept in one attribute each; truth conversion three-valued.
 """
 import ast
 
